@@ -476,6 +476,16 @@ def c33(ctx):
     return oparse_leg(ctx, tool_leg(ctx), "c33_oparse.jsonl")
 
 
+def c30(ctx):
+    want = (json.load(open(ctx.replay)).get("replay") or {}).get("leg") if ctx.replay else None
+    rs = []
+    for leg in ("lib", "tools"):
+        if ctx.replay and (want or "lib") != leg:
+            continue
+        rs.append(ctx.harness(extra=["--leg", leg, "--bindir", bindir(ctx)], result=leg + ".json"))
+    return ctx.chk.merge(rs)
+
+
 PROPS = {
     "C01": {"run": simple, "level": "exploration"},
     "C02": {"run": c02, "level": "exploration"},
@@ -522,6 +532,7 @@ PROPS = {
             "assumptions": ["'supported by the registry' is modelled by an own table over the 7 transfer syntax UIDs the generator uses (cross-checked against the registry at start; a mismatch makes the run inconclusive)"]},
     "C29": {"run": simple, "level": "exploration",
             "assumptions": ["requestor and acceptor run in one process over loopback TCP; timeouts (8 s per socket operation, 20 s per hand-shake) make a scenario inconclusive"]},
+    "C30": {"run": c30, "level": "exploration", "tools": True},
     "C31": {"run": simple, "level": "exploration"},
     "C32": {"run": c32, "level": "exploration", "tools": True,
             "assumptions": ["loopback TCP on 127.0.0.1 is available; ports are picked by bind(0) and re-used by the tool (lost races are retried)",
